@@ -1,6 +1,7 @@
 import BbRe.Lemmas.SchedTreeLock
 import BbRe.Lemmas.SchedInvParked
 import BbRe.Lemmas.SchedTreeRead
+import BbRe.Lemmas.SchedTreePrioStep
 /-!
 # C04 (tree layer) — the invocation tree as state refines the scheduler model
 
@@ -88,17 +89,17 @@ worker in their subtree; `executingWorkers[w]` = the number of operations in the
 number of workers whose last invocation is in the subtree; a non-root invocation exists iff something of the
 above is recorded at or below it (`getOrCreateInvocation` / `removeIfEmpty`).
 
-Not covered: `firstQueuedOperationPriority`.  The statement that does hold in the Go code is
-```
-∀ n ∈ ts.nodes, n.path ≠ [] → n.qops ≠ [] → n.prio = minPrio (n.qops.map ts.prioOf)
-```
-(for an invocation without directly queued operations the field is a cache of the value a queued child had
-when `updateFirstOperationPriority` last ran on the path, and `incrementExecutingWorkersCount` /
-`decrementExecutingWorkersCount` reorder `queuedChildren` without refreshing it, so nothing stronger is an
-invariant).  It is compared at run time by the harness (`treedump` prints the priority of queued
-invocations) but not proved; hence the name. -/
-theorem tree_inv_partial (ts : TState) (h : TReachable ts) : TreeInv ts :=
-  (tinv_reachable h).treeInv
+`firstQueuedOperationPriority` (second conjunct): for a non-root invocation with queued operations of its own
+the field is the least priority among them (`queuedOperations[0].priority`; the root is never refreshed).
+For an invocation WITHOUT directly queued operations nothing is an invariant of the Go code: the field is a
+copy of the value its then-first queued child had when `updateFirstOperationPriority` last ran on the path,
+and `incrementExecutingWorkersCount` / `decrementExecutingWorkersCount` reorder `queuedChildren` without
+refreshing it (see notes/findings/C04-stale-first-priority.md: the documented meaning "priority of the
+operation expected to be executed next" is violated on the real scheduler within 6 segments; the model
+reproduces the real values, which the harness compares after every segment). -/
+theorem tree_inv (ts : TState) (h : TReachable ts) :
+    TreeInv ts ∧ ∀ n ∈ ts.nodes, n.path ≠ [] → n.qops ≠ [] → n.prio = minPrio (n.qops.map ts.prioOf) :=
+  ⟨(tinv_reachable h).treeInv, prio_reachable h⟩
 
 /-- the executable checker of `Model/SchedTreeCheck.lean` that the driver runs after every segment
 (`treecheck`) tests the clauses of the invariant behind `tree_inv`; the invariant itself, in the form the
